@@ -8,7 +8,7 @@ LEVEL = 'proof'
 PROPS = ['Props/C22.v', 'Findings/C22.v']
 TRUSTED = [
     'hand-written models Model/C22Memo.v (get / compute / set protocol of the process-wide set-only caches) and Model/C22Sched.v '
-    '(Query._get_translator: get, compare fixed_param_values, del, translate, set; decision table of the cross-session guards); tied on '
+    '(Query._get_translator: get, compare fixed_param_values, pop(key, None), translate, set; decision table of the cross-session guards); tied on '
     'every run by replaying every enumerated schedule on real threads through an instrumented dict subclass installed in place of '
     'db._translator_cache / core.string2ast_cache / core.adapted_sql_cache / decompiling.ast_cache, and comparing per-thread results, the log '
     'of dict operations and the final cache with the model inside Coq (vm_compute)',
@@ -125,8 +125,7 @@ def coq_case(c, r):
             else: raise Unmodelled('thread ended with %s' % x.get('name'))
         if len(r['cache']) > 1 or any(len(v) != 1 for v in r['cache']): raise Unmodelled('cache content %r' % r['cache'])
         cache = copt(r['cache'][0][0] if r['cache'] else None)
-        safe = 'true' if _variant[0] == 'pop' else 'false'
-        return 'toutcome_eqb (toutcome %s %s %s %s) ([%s], %s, %s)' % (safe, copt(c['warm']), cnats(c['xs']), cnats(c['sched']), '; '.join(res), clog(r['log']), cache)
+        return 'toutcome_eqb (toutcome true %s %s %s) ([%s], %s, %s)' % (copt(c['warm']), cnats(c['xs']), cnats(c['sched']), '; '.join(res), clog(r['log']), cache)
     if c['kind'] == 'setonly':
         res = []
         for x in r['results']:
@@ -174,8 +173,8 @@ def correspondence(ctx):
     except DriverProblem as e:
         return Corr(cases=len(_cache), disagreements=[{'what': 'real threads did not finish (deadlock or driver error)', 'input': e.case, 'impl': str(e.what)[:1500]}])
     dist['translator_variant'] = _variant[0]
-    if _variant[0] not in ('del', 'pop'):
-        disagreements.append({'what': 'Query._get_translator no longer has the modelled shape (neither `del cache[key]` nor `pop(key, None)`)', 'input': 'source'})
+    if _variant[0] != 'pop':
+        disagreements.append({'what': 'Query._get_translator no longer invalidates with `_translator_cache.pop(query_key, None)` (source variant: %s)' % _variant[0], 'input': 'source'})
     exprs, meta, nontriv = [], [], set()
     for c, r in zip(cases, results):
         if c['kind'] == 'cross':
@@ -281,10 +280,10 @@ def replay(ctx, data):
 
 LEVEL_TEXT = ('Machine-checked proof (Coq 8.16.1): (1) generic memo theorem - for any key-sound get/compute/set cache, ANY number of clients and '
               'EVERY schedule, each client receives compute(its input) (instance: Pony\'s process-wide set-only caches); (2) translator cache '
-              '(Query._get_translator as coded: get, compare fixed values, del, translate, set): under every schedule a thread ends with a translator '
-              'for its own parameter value or with KeyError; the KeyError race is refuted by a 4-step schedule (vm_compute) and reproduced on real '
-              'threads; with pop(key, None) no schedule fails; (3) cross-thread object use as a guard decision table, proved on the exact complement '
-              'of 13 recorded unguarded cases. Every run replays all schedules of two threads and seeded schedules of three threads on real threads '
+              '(Query._get_translator as coded: get, compare fixed values, pop(key, None), translate, set): under every schedule every thread ends '
+              'with a translator for its own parameter value and no schedule raises (the former `del` race - KeyError on get/get/del/del - was '
+              'repaired in the repo, commit e8266c3); (3) cross-thread object use as a guard decision table, proved on the exact complement '
+              'of 12 recorded unguarded cases. Every run replays all schedules of two threads and seeded schedules of three threads on real threads '
               'through an instrumented dict and compares results, operation logs and final caches with the model by vm_compute.')
 LEVEL_NOTE = ('Partial: pre-emption inside one dict operation is the GIL\'s business (trusted); key soundness of each cache is a hypothesis (C05); '
               'Database._constructed_sql_cache, extractors_cache, lambda_args_cache follow the same get/set shape but are not replayed; the guard table '
